@@ -5,6 +5,7 @@ package geom
 import "math"
 
 func init() {
+	vfHarnesses["C17_simplify_rings"] = vfhC17SimplifyRings
 	vfHarnesses["C17_simplify"] = vfhC17Simplify
 	vfHarnesses["C17_simplify_3"] = vfhC17Simplify3
 	vfHarnesses["C17_densify_xy"] = vfhC17DensifyXY
@@ -20,7 +21,7 @@ func init() {
 // uninterpreted: every branch of Ramer-Douglas-Peucker is explored): the
 // result is empty or a subsequence of the input with the same first and last
 // vertex, Z/M carried bit for bit.
-func vfhC17Simplify()   { vfSimplify(vfCT("ct"), 4) }
+func vfhC17Simplify()  { vfSimplify(vfCT("ct"), 4) }
 func vfhC17Simplify3() { vfSimplify(DimXYZ, 3) }
 
 func vfSimplify(ct CoordinatesType, np int) {
@@ -178,6 +179,95 @@ func vfhC17InterpolateHunt() {
 	}
 	if f >= 1 {
 		vfAssert(xy.X == 3, "fractions >= 1 give the end point")
+	}
+	vfReach("end")
+}
+
+// Polygon.Simplify / MultiPolygon.Simplify are the ring-wise simplification:
+// concrete rings (three holes of different sizes in a symbolic order; a member
+// with a deep notch next to a member sitting in the notch), symbolic threshold.
+// The result has the simplified shell and exactly the simplified holes that did
+// not collapse, in order; a MultiPolygon result is the valid collection of the
+// members' results or an error.
+func vfhC17SimplifyRings() {
+	th := vfLattice("t", 6) / 4
+	vfAssume(th >= 0)
+	shell := NewLineStringXY(0, 0, 10, 0, 20, 0, 20, 20, 0, 20, 0, 0)
+	holes := []LineString{
+		NewLineStringXY(1, 1, 1.5, 1, 1.5, 1.5, 1, 1.5, 1, 1),         // 0.5 x 0.5
+		NewLineStringXY(5, 5, 15, 5, 15, 15, 5, 15, 5, 5),             // 10 x 10
+		NewLineStringXY(16, 1, 19, 1, 19, 3, 17.5, 3.2, 16, 3, 16, 1), // 3 x 2 with a bump
+	}
+	var order [3]int
+	switch vfInt("order", 0, 5) {
+	case 0:
+		order = [3]int{0, 1, 2}
+	case 1:
+		order = [3]int{0, 2, 1}
+	case 2:
+		order = [3]int{1, 0, 2}
+	case 3:
+		order = [3]int{1, 2, 0}
+	case 4:
+		order = [3]int{2, 0, 1}
+	default:
+		order = [3]int{2, 1, 0}
+	}
+	rings := []LineString{shell}
+	for _, k := range order {
+		rings = append(rings, holes[k])
+	}
+	poly := NewPolygon(rings)
+	got, err := poly.Simplify(th)
+	vfAssert(err == nil, "simplifying this polygon never invalidates it")
+	want := []LineString{shell.Simplify(th)}
+	for _, k := range order {
+		if h := holes[k].Simplify(th); h.Coordinates().Length() >= 4 {
+			want = append(want, h)
+		}
+	}
+	if want[0].Coordinates().Length() < 4 {
+		vfAssert(got.IsEmpty(), "a collapsed shell gives the empty polygon")
+		vfReach("shell-collapsed")
+		want = nil
+	} else {
+		vfAssert(got.NumInteriorRings()+1 == len(want), "exactly the holes that do not collapse are kept")
+	}
+	gr := got.DumpRings()
+	for i := range want {
+		if i < len(gr) {
+			vfAssert(ExactEquals(gr[i].AsGeometry(), want[i].AsGeometry()), "each kept ring is its own simplification, in order")
+		}
+	}
+	vfObserveInt("kept-holes", int64(got.NumInteriorRings()))
+
+	// MultiPolygon: the notch vertex (50,92) goes away for t >= 8 and the simplified
+	// first member then swallows the second one
+	notched := NewPolygon([]LineString{NewLineStringXY(0, 0, 100, 0, 100, 100, 70, 100, 50, 92, 30, 100, 0, 100, 0, 0)})
+	inNotch := NewPolygon([]LineString{NewLineStringXY(50, 94, 62, 99, 38, 99, 50, 94)})
+	members := []Polygon{notched, inNotch}
+	if vfBool("swap") {
+		members = []Polygon{inNotch, notched}
+	}
+	mp := NewMultiPolygon(members)
+	vfAssert(mp.Validate() == nil, "the input MultiPolygon is valid")
+	var exp []Polygon
+	for _, m := range members {
+		s, err := m.Simplify(th)
+		vfAssert(err == nil, "each member stays valid on its own")
+		if !s.IsEmpty() {
+			exp = append(exp, s)
+		}
+	}
+	expMP := NewMultiPolygon(exp)
+	gotMP, err := mp.Simplify(th)
+	if expMP.Validate() != nil {
+		vfAssert(err != nil, "members that collide after simplification are reported, not returned")
+		vfReach("collide")
+	} else {
+		vfAssert(err == nil && ExactEquals(gotMP.AsGeometry(), expMP.AsGeometry()), "the MultiPolygon of the members' simplifications")
+		vfAssert(gotMP.Validate() == nil, "a returned MultiPolygon is valid")
+		vfReach("valid")
 	}
 	vfReach("end")
 }
